@@ -507,8 +507,16 @@ func init() {
 				return err
 			}
 			var c c18Case
-			if err := json.Unmarshal(b, &c); err != nil {
+			var wrap struct {
+				Case *c18Case `json:"case"`
+			}
+			if json.Unmarshal(b, &wrap) == nil && wrap.Case != nil && len(wrap.Case.Listeners) > 0 {
+				c = *wrap.Case // a violation is recorded as {case, res}
+			} else if err := json.Unmarshal(b, &c); err != nil {
 				return err
+			}
+			if len(c.Listeners) == 0 {
+				return fmt.Errorf("bad replay file: no listeners in the case")
 			}
 			for i := 0; i < 20; i++ {
 				cases = append(cases, &c)
